@@ -123,6 +123,9 @@ def run(rep, tier, seed, pa):
         ref_units = [(u.segment.start, u.segment.end, cid[u.annotation]) for u in ref["Ref"]]
         init = [list(ref_units) for _ in sorted(names)]
         ravg = ref.avg_length_unit
+        rd = [frac(e) - frac(s) for s, e, _ in ref_units]
+        if not near(ravg, sum(rd, Fraction(0)) / len(rd)) or ref.avg_num_annotations_per_annotator != ref.num_units / len(ref):
+            rep.violation("reference-statistics", desc, "avg_length_unit / avg_num_annotations_per_annotator of the reference are not the stated means")
         # gray zone on the iteration counts
         # gray zone: the float evaluation of int(m * factor * x) disagrees with the exact one (integer boundary)
         gray = False
